@@ -143,11 +143,26 @@ T = {
              "unsigned significand type (reps of 64 or more unsigned digits): -limit wraps, the test is always true, the significand is never scaled up: 1.5 prints as 1; a uint64 rep with a positive exponent loops forever", ["C14", "C13"]),
  "M-C16-4": ("C16", "reduce() skips the gcd when the numerator is zero (fraction/reduce.h)",
              "numerator 0 and |denominator| >= 2: reduce(0/5) stays 0/5, canonical(0/-5) is 0/5, equal fractions hash differently", ["C16"]),
+ "M-C20-1": ("C20", "e_v is built through constant_with_fallback<double> from e_v<double>: 64-bit reps with 52..62 fractional digits fall through to the 1/n! series, which is 8-10 units low (scaled_integer/numbers.h)",
+             "std::numbers::e_v<scaled_integer<Rep, power<E>>> with a 64-bit Rep and -62 <= E <= -52 (no operand: the constant itself)", ["C20"]),
+ "M-C20-2": ("C20", "make_largest_ufraction takes its exponent from the signed digit count minus one: for unsigned reps the all-fraction intermediate only covers [0, 0.5) (scaled_integer/math.h)",
+             "exp2 on scaled_integer<uint8_t or uint16_t, power<E>>, E < 0, non-integral x", ["C20"]),
+ "M-C10-1": ("C10", "uintwide_t::operator%=: the remainder is negated when the signs differ (the quotient's condition) instead of when the dividend is negative (ckormanyos/uintwide_t.h)",
+             "signed multi-limb wide_integer, negative divisor, non-zero remainder: 7 % -2 == -1", ["C10", "C02"]),
+ "M-C10-2": ("C10", "4-limb multiplication fast path tests b[2] twice and never b[3]: the lo(a0*b3) term is dropped (ckormanyos/uintwide_t.h)",
+             "wide_integer<193..256, uint64_t> (4 limbs), left < 2^128, right with limb 2 zero and limb 3 non-zero: 3 * 2^192 == 0", ["C10"]),
+ "M-C17-1": ("C17", "make_fraction: the denominator clamp of the accelerated mediant step compares with the UNSIGNED type's maximum, so the denominator wraps negative (fraction/make_fraction.h)",
+             "fraction<int32_t> from double such as pi/54 (the search reaches the denominator clamp)", []),
 }
 
 
 # id -> what happened when the change was first run against the checks, and what was strengthened because of it
 HIST = {
+ "M-C10-2": "missed at first (limb arithmetic was declared undecided): the limb algebra (vlib/limbalg.py) was written for it; C10 now re-expresses + - * unary- ++ -- << >> of 8 (q) / 70 multi-limb instantiations as integer polynomials over the limbs and reports this change with a counterexample on the fast path (b2 == 0, b3 != 0)",
+ "M-C10-1": "reported by the sign rule G2 (written after M-C02-3)",
+ "M-C17-1": "NOT reported: C17 is not applicable (the mediant search is driven by floating-point comparisons; nothing of this clamp is visible in types or code shape)",
+ "M-C20-1": "reported by the constant facts (the series fall-back is 8-10 units low for the 64-bit reps it now serves)",
+ "M-C20-2": "reported by the exp2 structure kernels of the unsigned reps and by the intermediate-type fact",
  "M-C05-1": "missed at first: C05 judged result types only; unary/shift EQ kernels (operand widened before the operator) added",
  "M-C07-1": "missed at first: the line matrix had no (wide dividend, narrower signed divisor) pair; type pairs stratified by (width relation, signedness); exposed defects D18/D19, repaired",
  "M-C11-1": "missed at first: storage facts (limb count / width of the wide layer incl. the sign bit) added to C11",
